@@ -227,7 +227,7 @@ func (c *Check) Finish() int {
 			} else {
 				nUnd++
 			}
-			fmt.Printf("  %-5s %-24s %-60s %s\n        %s\n", map[Verdict]string{Violated: "FAIL", Undecided: "UNDEC"}[o.Verdict], o.Rule, o.Construct, o.Pos, o.Detail)
+			fmt.Printf("  %-5s %-24s %-60s %s\n        %s\n", map[Verdict]string{Violated: "FAIL", Undecided: "UNDEC"}[o.Verdict], o.Rule, o.Construct, o.Pos, clip(o.Detail, 1500))
 			name := fmt.Sprintf("%s-%03d.json", c.ID, nViol+nUnd)
 			path := filepath.Join(rpDir, name)
 			rp := map[string]any{
